@@ -64,12 +64,18 @@ def run(ctx, R2, R3, R4, R5):
         raise AnalysisError("parse_url: no row returns a Url(...) built from keyword components")
     ctx.sites(R2, len(rets), 10, "rows of parse_url returning a Url")
 
+    url_fields = [p_ for p_ in m.func(f"{URL}.Url.__new__").params() if p_ != "cls"]
+
     def fields(r):
         op, args = destruct(r.ret)
         out = {}
-        for a in args:
-            k, _, v = a.partition("=")
-            out[k] = v
+        for i, a in enumerate(args):
+            k, eq, v = a.partition("=")
+            if eq and k.isidentifier():
+                out[k] = v
+            elif i < len(url_fields):
+                # positional construction: the i-th parameter of Url.__new__
+                out[url_fields[i]] = a
         return out
 
     def groups_of(t, regex):
@@ -218,7 +224,8 @@ def run(ctx, R2, R3, R4, R5):
             continue
         seen.add(key)
         nn += 1
-        lowered = any(destruct(x)[0] in ("lower", "casefold") and ph in x for x in subterms(r.ret)) or any(destruct(x)[0] == "_idna_encode" for x in subterms(r.ret))
+        lowered = any(destruct(x)[0] in ("lower", "casefold") and ph in x for x in subterms(r.ret)) or any(destruct(x)[0] == "_idna_encode" for x in subterms(r.ret)) \
+            or any(destruct(x)[0] == "map" and destruct(x)[1] and str(destruct(x)[1][0]).endswith("._idna_encode") for x in subterms(r.ret))
         ok = lowered or (v4 is True and r.ret == ph)
         ctx.ob(R4, nh.qual, f"for http/https the host is returned lower-cased ({r.ret[:70]})", ok,
                "" if ok else "a host reaches the result (pool key, Host header) with its original case", witness=r.witness(), node=nh.node)
